@@ -129,11 +129,16 @@ def check_regrid(case):
         choices = [[mc.ceil_frac(F(v) / F(h))] for v in case['y']]
     else:
         choices = mc.ambiguous_ceils(case['y'], h)
-        if sum(len(c) > 1 for c in choices) > 6:
-            choices = [[c[-1]] if i >= 6 else c
-                       for i, c in enumerate(choices)]
+    n_ambiguous = sum(len(c) > 1 for c in choices)
+    if n_ambiguous <= 10:
+        readings = itertools.product(*choices)
+    else:
+        # too many ambiguous samples to enumerate mixed readings: accept
+        # the two uniform ones (every ambiguous sample read as rounded
+        # quotient, or every one read exactly)
+        readings = [[c[0] for c in choices], [c[-1] for c in choices]]
     candidates = [
-        list(ceils) for ceils in itertools.product(*choices)
+        list(ceils) for ceils in readings
         if mc.levels_from_ceils(list(ceils)) == got_levels
     ]
     if not candidates:
@@ -252,4 +257,8 @@ PARTS = [
          strategy=lambda tier: mapping_cases(),
          budget={'quick': 150, 'thorough': 2500},
          describe='fit_offsets.build_head_mapping: per-level means'),
+    Part('regrid_fuzz', check_regrid, fuzz_of='regrid', fuzz_runs=60000,
+         shards={'quick': 0, 'thorough': 4},
+         describe='atheris campaign over the regrid strategy and oracle '
+                  '(thorough tier only)'),
 ]
